@@ -49,7 +49,10 @@ func ParseComment(token antlr.Token, filename string) *TODO {
 			todo.Assignee = todo.Assignee[1 : len(todo.Assignee)-1]
 		}
 
-		// Append text
+		// Append text; only a block comment carries a terminator, "*/" inside a line or hash comment is text
+		if strings.HasPrefix(strings.TrimSpace(comment), "/*") {
+			t = strings.TrimSuffix(t, "*/")
+		}
 		todo.Message = handleForMultipleLine(t)
 
 		return todo
@@ -60,7 +63,6 @@ func ParseComment(token antlr.Token, filename string) *TODO {
 
 // todo: handle for letter
 func handleForMultipleLine(t string) string {
-	t = strings.ReplaceAll(t, "*/", " ")
 	t = strings.ReplaceAll(t, "*", " ")
 	t = strings.ReplaceAll(t, "\n", " ")
 	return t
